@@ -64,6 +64,7 @@ func init() {
 	importProp("C05", "C18", map[string]string{"R18.12": "R5.17"}, "(R5.17 = C18 R18.12) every exit releases the workload the release claimed.")
 	extendProp("C17", "(R17.13) getReplicaSetsForDeployment queries the ReplicaSet lister with the selector built from spec.selector (the template labels may change from one revision to the next; the selector cannot).", r7C17)
 	extendProp("C20", "(R20.10) the conversion functions contain no delete() on an object's annotations or labels (the ObjectMeta copy is shallow: source and destination share the maps); (R20.11) where source and destination have an optional scalar of the same name and type (pause.duration, …) the destination gets the source's pointer, not a value rebuilt from it.", r8C20)
+	extendProp("C08", "(R8.13) the error of fetchMatchedRollout is propagated by every admission handler (error discipline of R6.1 applied to the workload webhook); (R8.14) UnifiedWorkloadHandler.Handle returns a bare Allowed before handleStatefulSetLikeWorkload only when the workload-type label is not 'statefulset' AND the kind is not StatefulSet.", r8C08)
 	extendProp("C08", "(R8.10) both admission handlers answer 'this workload is not selected by the webhook configuration' only after every entry and rule was examined (or the entry's selector cannot be parsed): the first entry whose rule matches does not decide alone.", r6C08)
 }
 
@@ -2160,5 +2161,63 @@ func r8C20(c *Ctx) {
 				}
 			}
 		}
+	}
+}
+
+// ---------------------------------------------------------------- C08 R8.13, R8.14 (round 8)
+
+func r8C08(c *Ctx) {
+	p := c.Prog
+	c.Rule("R8.13", "a failed Rollout lookup is an error of the admission handlers, not 'no Rollout'", 3)
+	checkErrorDisciplineF(c, "R8.13", func(fn *ssa.Function) bool {
+		return strings.HasPrefix(FuncName(fn), "pkg/webhook/workload/mutating.")
+	}, func(ci ssa.CallInstruction) bool {
+		return strings.HasSuffix(CalleeName(ci.Common()), "fetchMatchedRollout")
+	})
+
+	c.Rule("R8.14", "the generic handler lets a workload pass unexamined only when neither its type label nor its kind says StatefulSet", 2)
+	fn := p.Func("pkg/webhook/workload/mutating.UnifiedWorkloadHandler.Handle")
+	if fn == nil {
+		c.Unresolved("R8.14", "UnifiedWorkloadHandler.Handle")
+		return
+	}
+	var decode ssa.Instruction
+	for _, ci := range AllCalls(fn) {
+		if strings.HasSuffix(CalleeName(ci.Common()), "Decoder.Decode") {
+			if decode == nil || ci.Pos() < decode.Pos() {
+				decode = ci.(ssa.Instruction)
+			}
+		}
+	}
+	if decode == nil {
+		c.Unresolved("R8.14", "UnifiedWorkloadHandler.Handle: Decode of the new object")
+		return
+	}
+	examined := func(in ssa.Instruction) bool {
+		ci, ok := in.(ssa.CallInstruction)
+		return ok && strings.HasSuffix(CalleeName(ci.Common()), "handleStatefulSetLikeWorkload")
+	}
+	allowedRet := func(in ssa.Instruction) bool {
+		ret, ok := in.(*ssa.Return)
+		if !ok || len(ret.Results) != 1 {
+			return false
+		}
+		for _, lf := range Leaves(Forwarded(ret.Results[0]), ret.Block()) {
+			if call, ok := lf.V.(*ssa.Call); ok && strings.HasSuffix(CalleeName(&call.Call), "admission.Allowed") {
+				return true
+			}
+		}
+		return false
+	}
+	for _, q := range []struct {
+		label string
+		need  FactM
+	}{
+		{"type-label", FFalse(MCall("util.IsWorkloadType"))},
+		{"kind", FCmp("!=", MField("Kind"), MField("Kind"))},
+	} {
+		reach, at := CanReach(PointAfter(decode), allowedRet, ReachOpts{CutInstr: examined, CutEdge: func(b *ssa.BasicBlock, k int) bool { return EdgeFactMatches(b, k, q.need) }})
+		c.Ob("R8.14", "UnifiedWorkloadHandler.Handle#unexamined-only-if-not("+q.label+")", fn.Pos(), !reach, "a bare Allowed before the StatefulSet-like handler needs the "+q.label+" to say 'not a StatefulSet'",
+			ifs(reach, "the Allowed at "+p.Pos(posOf(at))+" is reachable although the "+q.label+" may say StatefulSet: a StatefulSet-like workload recognised by only one of the two (a CRD with the workload-type label, or a StatefulSet selected without it) is admitted with no partition and no in-progress marker"))
 	}
 }
